@@ -94,7 +94,7 @@ fn is_interleaving(seq: &[Vec<Vec<u8>>], a: &[Vec<Vec<u8>>], b: &[Vec<Vec<u8>>])
 }
 
 fn scenario(pr: &Params) -> Verdict {
-    world::reset(world::WorldCfg { nested_env: false, yields: true, select: true, policy: pr.policy });
+    world::reset(world::WorldCfg { nested_env: false, yields: true, select: true, policy: pr.policy, coop: false });
     let ty = pr.ty;
     let n = pr.hists.len();
     let conns: Vec<e3::RawConn> = (0..n).map(|p| e3::raw_conn(&format!("S{}", p))).collect();
